@@ -2,6 +2,7 @@ package core
 
 import (
 	"go/ast"
+	"go/parser"
 	"go/printer"
 	"go/token"
 	"go/types"
@@ -360,4 +361,110 @@ func FullStr(n ast.Node) string {
 	var sb strings.Builder
 	printer.Fprint(&sb, token.NewFileSet(), n)
 	return sb.String()
+}
+
+// FlipOp mirrors a comparison operator (a < b  ==  b > a).
+func FlipOp(op token.Token) token.Token {
+	switch op {
+	case token.LSS:
+		return token.GTR
+	case token.GTR:
+		return token.LSS
+	case token.LEQ:
+		return token.GEQ
+	case token.GEQ:
+		return token.LEQ
+	}
+	return op
+}
+
+// IsCmp reports whether op is a comparison operator.
+func IsCmp(op token.Token) bool {
+	switch op {
+	case token.EQL, token.NEQ, token.LSS, token.GTR, token.LEQ, token.GEQ:
+		return true
+	}
+	return false
+}
+
+// Oriented returns a comparison with the operand satisfying subj on the left
+// (the operator mirrored when the source has it on the right).
+func Oriented(be *ast.BinaryExpr, subj func(ast.Expr) bool) (x ast.Expr, op token.Token, y ast.Expr, ok bool) {
+	if be == nil || !IsCmp(be.Op) {
+		return nil, 0, nil, false
+	}
+	if subj(ast.Unparen(be.X)) {
+		return ast.Unparen(be.X), be.Op, ast.Unparen(be.Y), true
+	}
+	if subj(ast.Unparen(be.Y)) {
+		return ast.Unparen(be.Y), FlipOp(be.Op), ast.Unparen(be.X), true
+	}
+	return nil, 0, nil, false
+}
+
+func noSpace(s string) string {
+	return strings.Map(func(r rune) rune {
+		if r == ' ' || r == '\t' || r == '\n' {
+			return -1
+		}
+		return r
+	}, s)
+}
+
+// NormCond renders a condition without blanks and with every comparison in a
+// canonical orientation (the operand whose rendering sorts first on the left),
+// so that `a < b` and `b > a` render alike.
+func NormCond(e ast.Expr) string {
+	switch x := e.(type) {
+	case *ast.ParenExpr:
+		return "(" + NormCond(x.X) + ")"
+	case *ast.UnaryExpr:
+		if x.Op == token.NOT {
+			return "!" + NormCond(x.X)
+		}
+	case *ast.BinaryExpr:
+		if x.Op == token.LAND || x.Op == token.LOR {
+			return NormCond(x.X) + x.Op.String() + NormCond(x.Y)
+		}
+		if IsCmp(x.Op) {
+			l, r := noSpace(ExprStr(x.X)), noSpace(ExprStr(x.Y))
+			op := x.Op
+			if l > r {
+				l, r, op = r, l, FlipOp(op)
+			}
+			return l + op.String() + r
+		}
+	}
+	return noSpace(ExprStr(e))
+}
+
+// NormPat applies NormCond to a pattern written as Go source.
+func NormPat(s string) string {
+	e, err := parser.ParseExpr(s)
+	if err != nil {
+		return noSpace(s)
+	}
+	return NormCond(e)
+}
+
+// HasCond reports whether root contains a boolean (sub)expression that equals
+// the pattern up to blanks and the orientation of comparisons.
+func HasCond(root ast.Node, pat string) bool {
+	want := NormPat(pat)
+	found := false
+	ast.Inspect(root, func(n ast.Node) bool {
+		if found {
+			return false
+		}
+		if e, ok := n.(ast.Expr); ok {
+			switch e.(type) {
+			case *ast.BinaryExpr, *ast.UnaryExpr, *ast.ParenExpr:
+				if NormCond(e) == want {
+					found = true
+				}
+			}
+		}
+		return !found
+	})
+	return found
 }
